@@ -282,8 +282,20 @@ func checkPacket(t failer, c pktCase, fullSweep bool) (st sweepStats) {
 	if _, ok := verifyOwn(b, key); !ok {
 		t.Fatalf("harness walker/AEAD does not verify the project's own %s (harness or encoder disagree with RFC 8915 layout)", c.Kind)
 	}
-	if c.Kind == "response" && !sameCookies(v.cookies, cookies) {
-		t.Fatalf("accepted response: client pool holds %d cookies, %d were sealed (or contents differ)", len(v.cookies), len(cookies))
+	// a cookie is good for one request: a client keeps one copy of a cookie that a response carries several times
+	// (edge patterns can make the generated cookies identical)
+	var distinct [][]byte
+	for _, ck := range cookies {
+		dup := false
+		for _, d := range distinct {
+			dup = dup || bytes.Equal(d, ck)
+		}
+		if !dup {
+			distinct = append(distinct, ck)
+		}
+	}
+	if c.Kind == "response" && !sameCookies(v.cookies, distinct) {
+		t.Fatalf("accepted response: client pool holds %d cookies, %d distinct ones were sealed (or contents differ)", len(v.cookies), len(distinct))
 	}
 	if c.Kind == "request" && !zeroPaddedEq(v.cookie, cookies[0]) {
 		t.Fatalf("accepted request: the cookie the server would open (%x) is not the one the client sent (%x)", v.cookie, cookies[0])
@@ -319,7 +331,7 @@ func checkPacket(t failer, c pktCase, fullSweep bool) (st sweepStats) {
 			if _, ok := verifyOwn(m, key); !ok {
 				t.Fatalf("%s with %s accepted by the code but not authentic for the independent walker + AES-SIV", c.Kind, what)
 			}
-			if c.Kind == "response" && !sameCookies(v.cookies, cookies) {
+			if c.Kind == "response" && !sameCookies(v.cookies, distinct) {
 				t.Fatalf("%s with %s accepted and delivered different cookies", c.Kind, what)
 			}
 		}
@@ -424,8 +436,8 @@ func checkPacket(t failer, c pktCase, fullSweep bool) (st sweepStats) {
 				if !zeroPaddedEq(v.uid, l.uid) {
 					t.Fatalf("%s with %s appended behind the authenticator is accepted with unique identifier %s, the authenticated one is %s", c.Kind, what, hx(v.uid), hx(l.uid))
 				}
-				if c.Kind == "response" && !sameCookies(v.cookies, cookies) {
-					t.Fatalf("response with %s appended behind the authenticator delivered %d cookies to the pool, %d were sealed", what, len(v.cookies), len(cookies))
+				if c.Kind == "response" && !sameCookies(v.cookies, distinct) {
+					t.Fatalf("response with %s appended behind the authenticator delivered %d cookies to the pool, %d distinct ones were sealed", what, len(v.cookies), len(distinct))
 				}
 				if c.Kind == "request" && (!zeroPaddedEq(v.cookie, cookies[0]) || v.nplace != nfields) {
 					t.Fatalf("request with %s appended behind the authenticator: the server would open another cookie / answer %d fields instead of the %d authenticated ones", what, v.nplace, nfields)
